@@ -42,6 +42,51 @@ let run (entry : string) (inp : Sx.t) : Sx.t =
       L [ of_list (fun s -> L [of_chars s.Routing.sp_key; of_chars s.Routing.sp_last; of_n s.Routing.sp_size;
                               of_list of_chars s.Routing.sp_cols]) subs;
           of_list (fun q -> of_opt of_chars (Routing.route_key subs (to_chars q))) (lst queries) ]
+  | "cat_ser", L [next; cursor; parts] ->
+      let sub x = match x with
+        | L [size; key; last] -> { CatalogueCodec.sm_size = to_n size; sm_key = to_bytes key; sm_last = to_bytes last }
+        | _ -> raise (Conv "sub_meta") in
+      let part x = match x with
+        | L [table; id; off; len; subs] ->
+            { CatalogueCodec.pm_id = to_n id; pm_table = to_bytes table; pm_offset = to_n off; pm_len = to_n len;
+              pm_subs = to_list sub subs; pm_index = [] }
+        | _ -> raise (Conv "part_meta") in
+      let m = { CatalogueCodec.ms_next_wal = to_n next; ms_cursor = to_n cursor; ms_parts = to_list part parts } in
+      let g = CatalogueCodec.serialize m in
+      L [ of_n g.CatalogueCodec.w_next_wal; of_list of_bytes g.CatalogueCodec.w_strings;
+          of_list (fun p -> L [of_bytes p.CatalogueCodec.w_table; of_n p.CatalogueCodec.w_id; of_n p.CatalogueCodec.w_offset;
+                               of_n p.CatalogueCodec.w_len;
+                               of_list (fun s -> L [of_n s.CatalogueCodec.w_size; of_bytes s.CatalogueCodec.w_key;
+                                                    of_bytes s.CatalogueCodec.w_last; of_list of_bytes s.CatalogueCodec.w_columns;
+                                                    of_list of_n s.CatalogueCodec.w_interned]) p.CatalogueCodec.w_subs])
+            g.CatalogueCodec.w_parts ]
+  | "cat_de", L [next; strings; parts] ->
+      let sub x = match x with
+        | L [size; key; last; cols; interned] ->
+            { CatalogueCodec.w_size = to_n size; w_key = to_bytes key; w_last = to_bytes last;
+              w_columns = to_list to_bytes cols; w_interned = to_list to_n interned }
+        | _ -> raise (Conv "sub_msg") in
+      let part x = match x with
+        | L [table; id; off; len; subs] ->
+            { CatalogueCodec.w_id = to_n id; w_table = to_bytes table; w_offset = to_n off; w_len = to_n len;
+              w_subs = to_list sub subs }
+        | _ -> raise (Conv "part_msg") in
+      let g = { CatalogueCodec.w_next_wal = to_n next; w_strings = to_list to_bytes strings; w_parts = to_list part parts } in
+      (match CatalogueCodec.deserialize g with
+       | CatalogueCodec.DePanic -> A "panic"
+       | CatalogueCodec.DeOk m ->
+           let part_sx p =
+             L [of_bytes p.CatalogueCodec.pm_table; of_n p.CatalogueCodec.pm_id; of_n p.CatalogueCodec.pm_offset;
+                of_n p.CatalogueCodec.pm_len;
+                of_list (fun s -> L [of_n s.CatalogueCodec.sm_size; of_bytes s.CatalogueCodec.sm_key; of_bytes s.CatalogueCodec.sm_last])
+                  p.CatalogueCodec.pm_subs;
+                of_list (fun (k, v) -> L [of_bytes k; of_n v]) p.CatalogueCodec.pm_index] in
+           (* canonical order for the comparison: by (table bytes, id), as the harness prints the HashMap *)
+           let key p = (atom (of_bytes p.CatalogueCodec.pm_table), z_of_n p.CatalogueCodec.pm_id) in
+           let sorted = Stdlib.List.sort (fun a b ->
+             let (ta, ia) = key a and (tb, ib) = key b in
+             let c = compare ta tb in if c <> 0 then c else Z.compare ia ib) m.CatalogueCodec.ms_parts in
+           L [A "ok"; of_n m.CatalogueCodec.ms_next_wal; of_n m.CatalogueCodec.ms_cursor; of_list part_sx sorted])
   | _ -> raise (Conv ("unknown entry or bad input shape: " ^ entry))
 
 let () = Loop.main run
